@@ -112,8 +112,14 @@ def size(t):
     return 1 + (sum(size(x) for x in t["a"]) if t["t"] == "c" else 0)
 
 
-def from_problog(x, vmap=None):
+class TooLarge(Exception):
+    """the answer is outside the size the judges handle: the case is skipped (counted), never a verdict"""
+
+
+def from_problog(x, vmap=None, _depth=0):
     """Convert a ProbLog term object (engine result) into a JSON term; variables get ids via vmap."""
+    if _depth > 60:
+        raise TooLarge("term nested deeper than 60 levels")
     from problog.logic import Term, Constant, Var
     if vmap is None:
         vmap = {}
@@ -151,7 +157,19 @@ def from_problog(x, vmap=None):
             if len(f) >= 2 and f[0] == '"' and f[-1] == '"':
                 return S(f[1:-1])
             return A(f)
-        return {"t": "c", "c": codes(f), "a": [from_problog(a, vmap) for a in x.args]}
+        if f == "." and x.arity == 2:
+            # a list: walk the spine iteratively (long findall results must not hit the depth guard)
+            elems, cur = [], x
+            while isinstance(cur, Term) and not isinstance(cur, Constant) and str(cur.functor) == "." and cur.arity == 2:
+                elems.append(from_problog(cur.args[0], vmap, _depth + 1))
+                cur = cur.args[1]
+                if len(elems) > 40:
+                    raise TooLarge("list longer than 40 elements")
+            out = from_problog(cur, vmap, _depth + 1)
+            for e in reversed(elems):
+                out = {"t": "c", "c": codes("."), "a": [e, out]}
+            return out
+        return {"t": "c", "c": codes(f), "a": [from_problog(a, vmap, _depth + 1) for a in x.args]}
     raise TypeError("cannot convert %r" % (x,))
 
 
